@@ -54,7 +54,9 @@ func executeListenerWiring(mode string) (kind, detail string) {
 		return "inconclusive", "listener start: " + err.Error()
 	}
 	defer l.Shutdown()
-	dial := func() (net.Conn, error) { return net.DialTimeout("tcp", fmt.Sprintf("127.0.0.1:%d", port), 5*time.Second) }
+	dial := func() (net.Conn, error) {
+		return net.DialTimeout("tcp", fmt.Sprintf("127.0.0.1:%d", port), 5*time.Second)
+	}
 	// wait until target number n has received want
 	waitTarget := func(want []byte) (*world.Endpoint, bool) {
 		deadline := time.Now().Add(20 * time.Second)
